@@ -177,6 +177,10 @@ def gen_cases(ctx: Ctx) -> List[Dict[str, Any]]:
             sc["damp"] = 20.0
         sc["run_kwargs"] = rk
         cases.append({"sc": sc, "crashes": [dict(step=int(rng.integers(3, 7)), upto=int(rng.integers(0, 8)), hard=bool(rng.integers(0, 2)))]})
+        # interrupted repeatedly: the second crash comes after the RESUMED process has written checkpoints of its own
+        sc2 = dict(sc, steps=10, cad=dict(sc["cad"], ckpt=2))
+        cases.append({"sc": sc2, "crashes": [dict(step=3, upto=int(rng.integers(0, 8)), hard=bool(rng.integers(0, 2))), dict(step=int(rng.integers(6, 9)), upto=int(rng.integers(0, 8)), hard=False),
+                                             dict(step=10, upto=int(rng.integers(0, 4)), hard=bool(rng.integers(0, 2)))][: int(rng.integers(2, 4))]})
     # re-parameterised runs (learned parameters given as tensors): the resumed run must use the same parameters
     lcases = [({"U_ss": 1.02}, "basic", ("h2o",)), ({"zeta_s": 1.03, "beta_s": 0.98}, "xl", ("h2o", "h2"))]
     for i, (lp, eng, mols) in enumerate(lcases if ctx.thorough else [lcases[ctx.seed % 2]]):
